@@ -9,6 +9,11 @@ CHECKS = {
    text="VoteSet.tla transcribes types/vote_set.go and ValidatorSet.VerifyCommit. TLC checks QuorumSound/CountedOnce/ThresholdsExact/Complete/CommitVerifies exhaustively for five power vectors (totals 3,4,6,7,9); every transition of those graphs and every abstract commit (flag x signature kind x size x height x block id) is executed on the real code at three power scales up to the MaxTotalVotingPower cap and compared on result class and all observers.",
    note="Trusted: TLC, the Go driver's mapping of abstract votes to real signed votes; secp256k1 soundness. Powers beyond the five vectors and sets larger than 5 validators are reached only through scale replay.",
    ref="§4-C02"),
+ "C12": dict(
+   engine="valset", category="model_checking", technique="TLA+ spec (ValidatorSet.tla, executable transcription of the specified proposer selection and change-set rules) model-checked with TLC; every transition replayed into the real types.ValidatorSet",
+   text="ValidatorSet.tla states Increment/UpdateWithChangeSet as specified. TLC checks WellFormed/Window/Centred on all histories (3-5 validators, powers 1..60, depth 3-4, invalid change sets of every class) and FairShare(+-1)/NoStarvation on static-set rotations after arbitrary prefixes; every transition is executed on the real ValidatorSet and compared on order, power, every priority, proposer, error outcome, all-or-nothing and independence of the change-list order. The cap clauses are replayed at the scale where the model's Cap is MaxTotalVotingPower.",
+   note="Trusted: TLC, the driver. 32-bit TLC integers: rounding behaviour near the int64/8 cap is only covered for the accept/reject decision, not for priorities.",
+   ref="§4-C12"),
 }
 
 NOT_YET = {
